@@ -84,8 +84,8 @@ func VerifC18Pipeline() { verifC18Pipeline(4, 2) }
 
 // VerifC18Pipeline6 is the thorough variant.
 //
-//verif:harness name=H18d-pipeline6 tier=thorough bounds="as H18d-pipeline with bursts of 1..6 queries and max_pipeline_count in 1..3" reach=done,limited,unlimited maxpaths=5000000 switches=0
-func VerifC18Pipeline6() { verifC18Pipeline(6, 3) }
+//verif:harness name=H18d-pipeline6 tier=thorough bounds="as H18d-pipeline with bursts of 1..5 queries and max_pipeline_count in 1..3" reach=done,limited,unlimited maxpaths=5000000 switches=0
+func VerifC18Pipeline6() { verifC18Pipeline(5, 3) }
 
 func verifC18Pipeline(maxBurst, maxLimit int) {
 	burst := 1 + verifChoice(maxBurst)
